@@ -52,7 +52,24 @@ type pipeLog struct {
 	poison   bool
 	maxEv    int
 	nchan    int
+	// schedule gate: when sched is set, a goroutine arriving at a gated hook waits until the next
+	// entry of the schedule names its (site, channel); if the run cannot follow, it diverges and all
+	// gates open
+	sched    []schedEv
+	si       int
+	diverged bool
+	gateWait time.Duration
 }
+
+type schedEv struct {
+	Site string `json:"site"`
+	Ch   int    `json:"ch"`
+}
+
+var gatedSites = map[string]bool{"p.queue": true, "w.offer": true, "o.dequeue": true, "o.take": true, "o.write": true, "o.close": true,
+	"w.closed": true, "w.released": true, "p.closeq": true, "p.closesend": true, "p.closed": true,
+	"r.enqueue": true, "d.fail": true, "d.offer": true, "c.dequeue": true, "c.take": true, "c.deliver": true, "c.close": true,
+	"u.recv": true, "r.finq": true, "r.finsend": true, "r.finwait": true, "r.finclose": true}
 
 const poisonByte = 0xDB
 
@@ -85,6 +102,21 @@ func (p *pipeLog) hook(site string, ch interface{}, buf []byte) {
 		} else {
 			bn = len(p.bufs) + 1
 			p.bufs[a] = bn
+		}
+	}
+	if p.sched != nil && gatedSites[site] && !p.diverged {
+		deadline := time.Now().Add(p.gateWait)
+		for !p.diverged && !(p.si < len(p.sched) && p.sched[p.si].Site == site && p.sched[p.si].Ch == cn) {
+			if p.si >= len(p.sched) || time.Now().After(deadline) {
+				p.diverged = true
+				break
+			}
+			p.mu.Unlock()
+			time.Sleep(20 * time.Microsecond)
+			p.mu.Lock()
+		}
+		if !p.diverged {
+			p.si++
 		}
 	}
 	if len(p.events) < p.maxEv {
@@ -171,6 +203,7 @@ type pipeCase struct {
 	Perturb int       `json:"perturb"`
 	Poison  bool      `json:"poison"`
 	SlowIO  int       `json:"slowio,omitempty"` // microseconds of delay per sink/source call
+	Sched   []schedEv `json:"sched,omitempty"`  // gate replay of a TLC behaviour
 }
 
 // pipeRun executes concurrent Writer / Reader scenarios with the hooks installed and records the event
@@ -196,7 +229,7 @@ func pipeRun(args []string) error {
 		n++
 		input := c.Input.build()
 		pl := &pipeLog{chans: map[uintptr]int{}, bufs: map[uintptr]int{}, poisoned: map[uintptr]int{}, rnd: rand.New(rand.NewSource(c.Seed)),
-			perturb: c.Perturb, poison: c.Poison, maxEv: 4000}
+			perturb: c.Perturb, poison: c.Poison, maxEv: 4000, sched: c.Sched, gateWait: 5 * time.Second}
 		base := lz4Goroutines()
 		currentLog.Store(pl)
 		e := rec{"ev": "pipe", "case": c.ID, "kind": c.Kind, "conc": c.Opts.Conc, "hung": false}
@@ -271,6 +304,12 @@ func pipeRun(args []string) error {
 		}
 		pl.mu.Unlock()
 		e["leaked"] = leaked
+		if c.Sched != nil {
+			pl.mu.Lock()
+			e["followed"] = !pl.diverged && pl.si == len(pl.sched)
+			e["schedpos"] = pl.si
+			pl.mu.Unlock()
+		}
 		w.put(e)
 		if e["hung"] == true {
 			w.close()
